@@ -218,6 +218,11 @@ impl FileHandle {
         }
 
         let needed = c_fh.wrapper.as_fam_struct_ref().handle_bytes as usize;
+        if needed > MAX_HANDLE_SIZE {
+            // A larger file handle than we can store: MAX_HANDLE_SZ is no guaranteed upper limit
+            // for what a filesystem may need, see name_to_handle_at(2).
+            return Ok(None);
+        }
         let mut c_fh = CFileHandle::new(needed);
 
         // name_to_handle_at() does not trigger a mount when the final component of the pathname is
